@@ -87,6 +87,11 @@ chk("C18", "exploration", "exhaustive enumeration of environment answers (chip-r
     "Trusted: chips.rs (buffer/FIFO addressing per datasheet). The async_device level (its own 256-byte buffer) is argued, not exercised.",
     "DESIGN.md §3 C18")
 
+chk("C13", "translation_validation", "exhaustive differential execution of the real driver and Semtech's C reference driver over full parameter products",
+    "Crate mc13 links Semtech's SWL2001 C drivers (smtc-modem-cores, from the cargo cache) and the real lora-phy drivers against the same register-file SPI double. Per shared operation the full product of its parameter domain is run on both from the same register state: sleep warm/cold, standby, RF frequency (every 100 Hz LoRaWAN channel in thorough, stride over 137-1020 MHz), modulation parameters SF x BW x CR x all 256 prior register values, packet parameters preamble x header x length 0..255 x CRC x IQ x prior values, all 256 sync words, buffer bases, buffer/FIFO writes of every length, TX/RX/CAD start, IRQ masks per mode, every symbol timeout 0..65535, image calibration per band, PA configuration for every power -128..127 x ramp x prior values, status reads, depth-2 sequences of the read-modify-write operations. SX1261/SX1262/STM32WL: equality of the canonical wire form; SX1272/SX1276 (RFO and PA_BOOST): equality of the chip-visible outcome (register bits stated per operation, FIFO stream). An operation that is never compared (all cases rejected) is a machinery failure.",
+    "Trusted: the C reference as packaged; the datasheet PA/image-calibration tables fed to the reference (SWL2001 leaves them to the BSP); documented errata/policy mirrors listed in DESIGN.md §3 C13 (errata 2.3 with the modulation config, AgcAutoOn forced off, reserved/dead bits written with datasheet defaults).",
+    "DESIGN.md §3 C13")
+
 chk("C17", "exploration", "exhaustive input sweeps through the real drivers, SPI writes decoded with datasheet formulas",
     "Through the real RadioKind implementations over a recording SPI: (a) set_channel for every 100 Hz LoRaWAN channel frequency plus a 1 kHz stride over 137-1020 MHz (thorough: every 1 Hz, 8.8e8 values per chip family), PLL word decoded and compared in exact integer arithmetic; (b) every power request -128..127 and i32 extremes x 8 chip/PA variants x 3 bands, PA registers decoded with the datasheet tables (clamped request, never above it, reserved bits intact); (c) every symbol timeout 0..65535; (d) every (SF,BW) x margin 0..1000 ms through the LoRaWAN adapter against 12.25 symbols + margin in exact rational arithmetic; (e) every raw packet-status value of both chip families against the datasheet conversions.",
     "Trusted: the datasheet decode formulas transcribed in c17.rs; ST's characterisation admitted for the STM32WL 14 dBm row; for SX127x negative-SNR RSSI both the datasheet and the reference-driver formula are admitted.",
@@ -114,7 +119,7 @@ def main():
         })
     m = {
         "version": 1,
-        "setup_cmd": "cd /verif/harness && CARGO_NET_OFFLINE=true cargo build --release --offline -p mc",
+        "setup_cmd": "cd /verif/harness && CARGO_NET_OFFLINE=true cargo build --release --offline -p mc -p mc13",
         "hooks": {
             "guard": "--cfg lora_rs_verif",
             "enable": "RUSTFLAGS=--cfg lora_rs_verif via /verif/harness/.cargo/config.toml (own target dir /verif/harness/target); path dependencies on /repo crates",
